@@ -331,6 +331,7 @@ func epochSections(c *an.Check) (h *srvHandlers, mtx *types.Var, bcast, getw *ss
 }
 
 func c22(c *an.Check) {
+	wakeHelpers(c)
 	p := c.P
 	h, mtx, bcast, getw, isPeerStore, ok := epochSections(c)
 	if !ok {
@@ -451,6 +452,7 @@ func c22(c *an.Check) {
 }
 
 func c23(c *an.Check) {
+	wakeHelpers(c)
 	p := c.P
 	h := serverHandlers(c)
 	if h == nil {
@@ -719,6 +721,7 @@ func listenDiff(c *an.Check, listen *ssa.Function, wantF *types.Var) {
 }
 
 func c25(c *an.Check) {
+	wakeHelpers(c)
 	p := c.P
 	listen := p.Func(srvPkg, "Server", "Listen")
 	h := serverHandlers(c)
@@ -1163,6 +1166,57 @@ func clientRetryAndReset(c *an.Check) {
 		}
 		return "no release of a tracked listen session found (anchor drift)"
 	}())
+}
+
+// wakeHelpers: the relay's condition-variable helpers do what every wake-up rule above assumes — broadcast() closes the
+// wait channel whenever one exists (no further condition) and forgets it; and the counters that distinguish "my call" from
+// "a later call" (listen nonce, session epoch) are 64 bits wide, so they cannot wrap back to a value an old call holds.
+func wakeHelpers(c *an.Check) {
+	p := c.P
+	n := 0
+	for _, T := range []string{"serverPeerTracker", "sessionTracker"} {
+		bc := trackerMethod(p, T, closesChan)
+		waitF := fv(c, srvPkg, T, "wait")
+		if bc == nil || waitF == nil {
+			c.Undecided("MUSTCALL", "signaling server "+T+".broadcast", nil, "unresolved anchor")
+			continue
+		}
+		n++
+		c.EachReturn("MUSTCALL", "signaling server "+T+".broadcast wakes every waiter", bc, "every return: wait channel closed and forgotten, or there was none", func(s *an.State, ret *ssa.Return) string {
+			closed := s.Executed(ret, func(i ssa.Instruction) bool {
+				call, ok := i.(*ssa.Call)
+				return ok && an.BuiltinName(call) == "close"
+			})
+			if closed {
+				cleared := s.Executed(ret, func(i ssa.Instruction) bool { v, _, ok := storeTo(i, waitF); return ok && isNilConst(v) })
+				if !cleared {
+					return "the closed wait channel is kept: the next broadcast closes it again (panic) or waiters obtain an already closed channel"
+				}
+				return ""
+			}
+			for _, b := range bc.Blocks {
+				for _, ins := range b.Instrs {
+					if u, ok := ins.(*ssa.UnOp); ok && an.IsFieldLoad(u, waitF) && s.IsNil(u) {
+						return ""
+					}
+				}
+			}
+			return "broadcast returns without closing an existing wait channel (it is conditioned on something else): a call waiting on it is never woken — e.g. a replaced Listen call never learns it was replaced"
+		})
+	}
+	okW, whyW := true, ""
+	for _, fr := range [][2]string{{"serverPeerTracker", "listenNonce"}, {"sessionTracker", "seqno"}} {
+		f := fv(c, srvPkg, fr[0], fr[1])
+		if f == nil {
+			okW, whyW = false, "unresolved anchor: "+fr[0]+"."+fr[1]
+			continue
+		}
+		b, isB := f.Type().Underlying().(*types.Basic)
+		if !isB || (b.Kind() != types.Uint64 && b.Kind() != types.Int64) {
+			okW, whyW = false, fmt.Sprintf("%s.%s is declared %s: after a wrap-around an old call's remembered value matches again and it keeps running next to the newest call", fr[0], fr[1], f.Type())
+		}
+	}
+	c.Require(okW && n == 2, "CONSTFIELD", "signaling server call-identity counters are 64 bits wide", nil, "", 2, "listenNonce, seqno: uint64", whyW)
 }
 
 func ownCheck(c *an.Check) {
